@@ -18,7 +18,7 @@ type C06Case struct {
 	Name     string            `json:"name,omitempty"`  // the clashing name
 }
 
-func c06Src(c *C06Case) string { return Canon(c.File) }
+func c06Src(c *C06Case) string { return CanonMaybeDense(c.File) }
 
 // findCmdLines maps command names (unique per file) to their output lines.
 func findCmdLines(a *Asm) map[string][]ALine {
